@@ -171,8 +171,9 @@ func (g *Gen) Next() Case {
 			if c.Variant != "-" {
 				continue
 			}
-			class := Reencodings[r.Intn(len(Reencodings))]
-			if bz := Reencode(c.Raw, class); bz != nil {
+			cls := Reencodings()
+			class := cls[r.Intn(len(cls))].Name
+			if bz := Reencode(r, c.Raw, class); bz != nil {
 				nc := Case{Kind: "reencode-" + class + "/" + c.Kind, Raw: bz, Variant: class}
 				g.Sent = append(g.Sent, nc) // a variant can itself be resubmitted
 				return nc
@@ -262,11 +263,18 @@ func (g *Gen) Core() [][]Case {
 		blocks = append(blocks, b)
 	case "c16":
 		// every re-encoding class of an executed transfer: in the same block, in the next block
-		for _, class := range Reencodings {
+		for _, cl := range Reencodings() {
+			class := cl.Name
 			a := mk("send", chain.MsgSend(ro.Rich[0].Addr, ro.Rich[1].Addr, 21), Single{ro.Rich[0]}, eq, "equal")
 			b := mk("send", chain.MsgSend(ro.Rich[1].Addr, ro.Rich[2].Addr, 22), Single{ro.Rich[1]}, eq, "equal")
-			va := Case{Kind: "core-reencode-" + class + "/sameblock", Raw: Reencode(a.Raw, class), Variant: class}
-			vb := Case{Kind: "core-reencode-" + class + "/nextblock", Raw: Reencode(b.Raw, class), Variant: class}
+			va := Case{Kind: "core-reencode-" + class + "/sameblock", Variant: class}
+			vb := Case{Kind: "core-reencode-" + class + "/nextblock", Variant: class}
+			for try := 0; try < 6 && va.Raw == nil; try++ { // the rewriter picks a nesting level at random
+				va.Raw = Reencode(g.R, a.Raw, class)
+			}
+			for try := 0; try < 6 && vb.Raw == nil; try++ {
+				vb.Raw = Reencode(g.R, b.Raw, class)
+			}
 			ra, rb := a, b
 			ra.Kind, rb.Kind = "core-resubmit/sameblock", "core-resubmit/nextblock"
 			if va.Raw == nil || vb.Raw == nil {
